@@ -1672,6 +1672,22 @@ theorem step_freshVal (id : ObjId) (f : Row → Row) (st : St) (hid : s0.n ≤ i
       have hqi : q ≠ id := fun e => by rw [e] at hq; exact absurd hq (Nat.not_lt.mpr hid)
       rw [upd_row_other _ _ _ _ hqi] at this; exact this
 
+/-- one attribute of the constructor's loop -/
+theorem step_createStep (fuel : Nat) (id : ObjId) (v : AttrId → Option Nat) (items : AttrId → List ObjId) (a : AttrId) (st : St) (hid : s0.n ≤ id) :
+    Step s0 st (createStep sch fuel id v items a st).st := by
+  unfold createStep
+  split
+  · split
+    · exact step_setColl (fun x st => step_delete _ x st) true _ a _ st _ rfl (Or.inl rfl)
+    · have h1 := step_freshVal (s0 := s0) id (fun r => { r with val := set1 r.val a (v a) }) st hid (fun r => ⟨rfl, rfl⟩)
+      dsimp only
+      split
+      · split
+        · exact h1.trans (step_updateReverse _ _ _ _ _ _ _ _)
+        · exact h1
+      · exact h1
+  · exact Step.refl _ _
+
 /-- `Entity.__init__` -/
 theorem errGood_create (fuel : Nat) (e : EntId) (pk : Option Nat) (vals : List (AttrId × Arg)) (st : St) (hn : st.store.n = s0.n) :
     ErrGood s0 st (create sch fuel e pk vals st) := by
@@ -1692,21 +1708,7 @@ theorem errGood_create (fuel : Nat) (e : EntId) (pk : Option Nat) (vals : List (
               rw [hp] at hfree
               simp only [pkTaken, Bool.not_eq_true, Option.isSome_eq_false_iff, Option.isNone_iff_eq_none] at hfree
               exact hfree
-            · apply step_iter
-              intro a s
-              split
-              · split
-                · exact step_setColl (fun x st => step_delete _ x st) true _ a _ s _ rfl (Or.inl rfl)
-                · have h1 := step_freshVal (s0 := s0) st.store.n (fun r => { r with val := set1 r.val a (argVal (match lookupArg vals a, sch.decl a with
-                      | some x, _ => x
-                      | none, some d => if d.kind = Kind.coll then Arg.coll [] else Arg.val none
-                      | none, none => Arg.val none)) }) s (Nat.le_of_eq hn.symm) (fun r => ⟨rfl, rfl⟩)
-                  split
-                  · split
-                    · exact h1.trans (step_updateReverse _ _ _ _ _ _ _ _)
-                    · exact h1
-                  · exact h1
-              · exact Step.refl _ _
+            · exact step_iter (fun a s => step_createStep _ _ _ _ a s (Nat.le_of_eq hn.symm)) _ _
           · intro st1; exact ⟨_, rfl⟩
 
 /-- the key indexes hold exactly the current key values of every live object -/
